@@ -567,7 +567,8 @@ func withNils(k []error, mask int) []error {
 // fmtArgs builds a printf format and argument list.
 func fmtArgs(lit Str, args []Arg, hid []error) (string, []interface{}) {
 	f := escFmt(lit.V)
-	var a []interface{}
+	front := ""
+	var a, fa []interface{}
 	for _, x := range args {
 		verb := x.Verb
 		switch x.Kind {
@@ -602,9 +603,20 @@ func fmtArgs(lit Str, args []Arg, hid []error) (string, []interface{}) {
 			}
 			a = append(a, UStringer{V: x.S.V})
 		}
-		f += " " + verb
+		sep := " "
+		if x.Glue {
+			sep = ""
+		}
+		if x.Front {
+			// (arguments are consumed in format order: keep a separate list)
+			front += verb + sep
+			fa = append(fa, a[len(a)-1])
+			a = a[:len(a)-1]
+		} else {
+			f += sep + verb
+		}
 	}
-	return f, a
+	return front + f, append(fa, a...)
 }
 
 // The stack-capturing constructors are called through these non-inlined
